@@ -49,6 +49,10 @@ def bad(rng, v):
         ("mixed comparison", {"filter": "1 == \"a\"", "target": "a0"}),
         ("wrong shape", {"filter": 5, "target": "a0"}),
         ("missing target", {"filter": "true"}),
+        ("syntax error in a deny rule", {"filter": "request.listener == ", "target": "deny"}),
+        ("type error in a deny rule", {"filter": "request.target.port + 1", "target": "deny"}),
+        ("unknown field in a deny rule", {"filter": "request.nosuch == 1", "target": "deny"}),
+        ("mixed comparison in a deny rule", {"filter": "1 == \"a\"", "target": "deny"}),
     ])
     l.insert(pos, item)
     return kind, l
